@@ -4,6 +4,9 @@ import json, os, glob
 V = os.path.dirname(os.path.dirname(os.path.abspath(__file__)))
 rows = []
 notes = json.load(open(os.path.join(V, 'seeded', 'NOTES.json'))) if os.path.exists(os.path.join(V, 'seeded', 'NOTES.json')) else {}
+fpass = {}
+if os.path.exists(os.path.join(V, 'seeded', 'FIRST_PASS_R3.json')):
+    fpass = json.load(open(os.path.join(V, 'seeded', 'FIRST_PASS_R3.json')))['first_pass']
 for d in sorted(glob.glob(os.path.join(V, 'seeded', '*', 'meta.json'))):
     m = json.load(open(d))
     name = os.path.basename(os.path.dirname(d))
@@ -11,7 +14,8 @@ for d in sorted(glob.glob(os.path.join(V, 'seeded', '*', 'meta.json'))):
     det = [f"{p} ({c['kinds'] or 'rc=' + str(c['rc'])})" for p, c in ran.get('checks', {}).items() if c.get('detected')]
     miss = [p for p, c in ran.get('checks', {}).items() if not c.get('detected')]
     rows.append((name, m.get('property'), m.get('summary', '').replace('\n', ' '), m.get('needs_to_manifest', '').replace('\n', ' '),
-                 '; '.join(det) or '—', ', '.join(miss) or '—', notes.get(name, ''), ran.get('baseline_tests_pass'), ran.get('repo_head')))
+                 '; '.join(det) or '—', ', '.join(miss) or '—', (('first attempt (before any strengthening): ' + ('caught. ' if fpass[name] else 'missed. ')) if name in fpass else '') + notes.get(name, ''),
+                 ran.get('baseline_tests_pass'), ran.get('repo_head')))
 with open(os.path.join(V, 'seeded', 'INDEX.md'), 'w') as fh:
     fh.write('# Independently produced property-breaking changes\n\n'
              'Each directory holds `patch.diff` (against /repo HEAD at the time), `demo.py` (exits 1 with the change, 0 without) and `meta.json`\n'
